@@ -51,11 +51,11 @@ theorem foldl_addLocal_seq (self : Node) (ls : List RAd) (st : NodeSt)
     · exact Nat.le_succ_of_le (hst e (List.mem_append_right _ he))
 
 theorem seqInv_init (n mh : Nat) (L : Node → List RAd) : SeqInv (init n mh L) where
-  flight := by intro f hf; simp [init] at hf
+  flight := by intro f hf; simp [init, initH] at hf
   seen := by
     intro x o sq h
     have : ((init n mh L).nodes x).seen = [] := by
-      simp only [init, initNode]
+      simp only [init, initH, initNode]
       exact (foldl_addLocal_seen x (L x) {}).trans rfl
     rw [this] at h; cases h
   entries := by
@@ -219,7 +219,7 @@ theorem withdraw_seq (s : Net) (a : Node) (hint : List (List RAd))
 
 theorem replay_seq (s : Net) (a b : Node) (ord : List RFrame) (hc : a < s.n ∧ b < s.n ∧ linked s a b = true) :
     ((step s (.replay a b ord)).nodes a).seq =
-      (s.nodes a).seq + (replayAdvs (hopCap s.maxHops) a b (s.nodes a) ord).length := by
+      (s.nodes a).seq + (replayAdvs (hopCap (s.maxHops a)) a b (s.nodes a) ord).length := by
   simp only [step, stepCore]
   have hc' : a < (tick s).n ∧ b < (tick s).n ∧ linked (tick s) a b = true := hc
   rw [if_pos hc']
